@@ -196,6 +196,32 @@ def run_C12(run):
     run.hist("C04", 4 if q else 5, nslots=1, maxiters=2, docs_per=1, stage="hist-nonflat")
 
 
+def run_C13(run):
+    q = run.tier == "quick"
+    comp = dict(MaxNodes=4 if q else 5, UseCat=True, ElemNames={"a", "b"}, AttrNames={"a"}, TextVals={"1"}, WithComment=True,
+                RelAxes=AXES, PredMode=True)
+    # (1) /addr(n)/p from every start node must select what p selects at n
+    run.gen_and_replay("MC_Compose", comp, name="compose-addr", kind="sel-set")
+    # (2) wrappers P[true()], (P), P|P, not(not(P)), (P)[true()] over all 1-2 step paths (relative and absolute)
+    run.gen_and_replay("MC_Expr", consts(BASE_EXPR, Family="C13wrap", MaxNodes=3 if q else 4, UseCat=True, AttrNames={"a"}),
+                       name="wrappers", kind="sel-set")
+    run.gen_and_replay("MC_Expr", consts(BASE_EXPR, Family="C13wrapPred", MaxNodes=4 if q else 5, UseCat=True),
+                       name="wrappers-pred", kind="sel-set")
+    # (3) absolute paths with predicates from every start node (predicate-free ones are in C01)
+    run.gen_and_replay("MC_Expr", consts(BASE_EXPR, Family="C02a-small", MaxNodes=1, UseCat=True), name="abs-from-everywhere",
+                       kind="sel-set")
+
+
+def run_C11(run):
+    q = run.tier == "quick"
+    # element names that contain '-' and digits, repeated names and values, attributes, text, comments
+    base = consts(BASE_EXPR, UseCat=True, ElemNames={"a", "a-1"}, AttrNames={"a"}, TextVals={"1", "-1"}, WithComment=True)
+    run.gen_and_replay("MC_Expr", consts(base, Family="C11pairs", MaxNodes=4 if q else 5), name="union-pairs", kind="sel-once")
+    run.gen_and_replay("MC_Expr", consts(base, Family="C11more", MaxNodes=4 if q else 5), name="union-nested-seq", kind="sel-once")
+    base2 = consts(base, ElemNames={"b1", "b", "a-1-1"}, TextVals={"1-1", ""}, WithComment=False)
+    run.gen_and_replay("MC_Expr", consts(base2, Family="C11pairs", MaxNodes=4, UseCat=False), name="union-pairs-names2", kind="sel-once")
+
+
 def replay_one(run, path):
     rec = json.load(open(path))
     m = rec["mismatch"]
@@ -224,6 +250,8 @@ PROPS = {
     "C03": {"run": run_C03},
     "C04": {"run": run_C04},
     "C12": {"run": run_C12},
+    "C11": {"run": run_C11},
+    "C13": {"run": run_C13},
     "C07": {"run": run_C07},
     "C08": {"run": run_C08},
     "C09": {"run": run_C09},
